@@ -492,9 +492,16 @@ template<class T> constexpr T spice(T*t) {return *t;}
             } \
         } rBOIL_END
 
+//skip as many components of the message as the matched port's name has
+//("a#3/b#2/" has two), at least one
 #define SNIP \
-    while(*msg && *msg!='/') ++msg; \
-    msg = *msg ? msg+1 : msg;
+    { int snip_n_ = 0; \
+      for(const char *snip_p_ = data.port->name; *snip_p_ && *snip_p_ != ':'; ++snip_p_) \
+          snip_n_ += (*snip_p_ == '/'); \
+      do { \
+          while(*msg && *msg!='/') ++msg; \
+          msg = *msg ? msg+1 : msg; \
+      } while(--snip_n_ > 0); }
 
 #define rRecurCb(name) rBOIL_BEGIN \
     data.obj = &obj->name; \
